@@ -219,6 +219,78 @@ func TestVerifC15(t *testing.T) {
 		r.Eval("encode:small-x")
 	}
 
+	// ---- decoded points used as operands AND receivers: decoding must hand out independent points
+	//      (no storage shared with other points or with package-level constants)
+	for i := 0; i < hk.N(60, 600); i++ {
+		A, B, C := pool[1+rng.Intn(len(pool)-1)].P, pool[1+rng.Intn(len(pool)-1)].P, pool[1+rng.Intn(len(pool)-1)].P
+		encOf := func(P ref.Pt) []byte {
+			if P.Inf {
+				return []byte{0}
+			}
+			return append([]byte{4}, append(ref.B32(P.X), ref.B32(P.Y)...)...)
+		}
+		a, _ := NewSM2Point().SetBytes(encOf(A))
+		b, _ := NewSM2Point().SetBytes(encOf(B))
+		c, _ := NewSM2Point().SetBytes(encOf(C))
+		if a == nil || b == nil || c == nil {
+			r.Violation("setbytes-rejects-own-encoding", hk.D{})
+			continue
+		}
+		var wantA ref.Pt
+		op := ""
+		switch i % 4 {
+		case 0:
+			a.Add(a, b)
+			wantA, op = A.Add(B), "a.Add(a,b)"
+		case 1:
+			a.Double(a)
+			wantA, op = A.Dbl(), "a.Double(a)"
+		case 2:
+			a.Add(b, a)
+			wantA, op = A.Add(B), "a.Add(b,a)"
+		default:
+			a.Negate(a)
+			a.Add(a, a)
+			wantA, op = A.Neg().Dbl(), "a.Negate(a);a.Add(a,a)"
+		}
+		ga, _ := toRef(a)
+		gb, _ := toRef(b)
+		gc, _ := toRef(c)
+		d := hk.D{"op": op, "A": ptHex(A), "B": ptHex(B), "C": ptHex(C)}
+		if !ga.Eq(wantA) {
+			r.Violation("decoded-point-as-receiver-wrong", d)
+		}
+		if !gb.Eq(B) || !gc.Eq(C) {
+			r.Violation("operation-on-decoded-point-changes-other-decoded-points", d)
+		}
+		// a point decoded afterwards must still round-trip
+		again, err := NewSM2Point().SetBytes(encOf(C))
+		if err != nil || !bytes.Equal(again.Bytes(), encOf(C)) || !bytes.Equal(again.Bytes_Unsafe(), encOf(C)) {
+			r.Violation("decode-after-arithmetic-no-longer-roundtrips", d)
+		}
+		r.Eval("decoded-as-receiver:" + op)
+	}
+	// package-level state must be what it was: the generator, b, 1 and [1]G
+	{
+		if g, _ := toRef(sm2G); !g.Eq(ref.G()) {
+			r.Violation("package-state-corrupted:sm2G", hk.D{})
+		}
+		if rawBig(sm2B).Cmp(ref.SM2B) != 0 {
+			r.Violation("package-state-corrupted:sm2B", hk.D{})
+		}
+		if rawBig(sm2ElementOne).Cmp(bi(1)) != 0 {
+			r.Violation("package-state-corrupted:sm2ElementOne", hk.D{"value": rawBig(sm2ElementOne).Text(16)})
+		}
+		one := make([]byte, 32)
+		one[31] = 1
+		if p1, err := ScalarBaseMult(one); err != nil {
+			r.Violation("package-state-corrupted:[1]G", hk.D{})
+		} else if g, _ := toRef(p1); !g.Eq(ref.G()) {
+			r.Violation("package-state-corrupted:[1]G", hk.D{"got": ptHex(g)})
+		}
+		r.Eval("package-state-after-workload")
+	}
+
 	// ---- hostile decodings must fail and leave the receiver unchanged
 	G := ref.G()
 	valid := append([]byte{4}, append(ref.B32(G.X), ref.B32(G.Y)...)...)
@@ -268,6 +340,30 @@ func TestVerifC15(t *testing.T) {
 		encs = append(encs, enc{append([]byte{4}, append(ref.B32(new(big.Int).Add(P.X, ref.SM2P)), ref.B32(P.Y)...)...), "x+p"})
 		if P.Y.Cmp(lim) < 0 {
 			encs = append(encs, enc{append([]byte{4}, append(ref.B32(P.X), ref.B32(new(big.Int).Add(P.Y, ref.SM2P))...)...), "y+p"})
+		}
+	}
+	{
+		span := new(big.Int).Sub(b256, ref.SM2P)
+		found := 0
+		for tries := 0; found < hk.N(30, 300) && tries < 20000; tries++ {
+			x0 := new(big.Int).SetBytes(rng.Bytes(29))
+			switch tries % 5 {
+			case 1:
+				x0.Rsh(x0, uint(8*rng.Intn(24)))
+			case 2:
+				x0 = new(big.Int).Sub(span, new(big.Int).SetBytes(rng.Bytes(3)))
+			case 3:
+				x0 = new(big.Int).Add(new(big.Int).Lsh(bi(1), uint(64+rng.Intn(160))), new(big.Int).SetBytes(rng.Bytes(4)))
+			}
+			if x0.Sign() < 0 || x0.Cmp(span) >= 0 {
+				continue
+			}
+			P, ok := ref.LiftX(x0)
+			if !ok {
+				continue
+			}
+			found++
+			encs = append(encs, enc{append([]byte{4}, append(ref.B32(new(big.Int).Add(P.X, ref.SM2P)), ref.B32(P.Y)...)...), "x+p-anywhere"})
 		}
 	}
 	encs = append(encs, enc{append([]byte{4}, append(ref.B32(ref.SM2P), ref.B32(G.Y)...)...), "x=p"},
